@@ -9,13 +9,20 @@
 //	ev:   a<j>     a vss.Signature for request id j arrives from a peer (tag = position of the event)
 //	      r<h>.<j> pipeline instance h registers for request id j (fresh context + reply channel per instance)
 //	      c<h>     instance h completes / is cancelled: its recovery stage is gone, then its context is cancelled
-//	      f<h>     the recovery stage of instance h has returned but handleQuery has not yet cancelled the context
-//	               (the window in which a further share for h makes the loop WAIT until the cancel). The cancel
-//	               follows as soon as the loop is seen waiting (or at c<h> / the end); the share is then dropped,
-//	               so for what is delivered f<h> is the same as c<h> - which is how the model reads it.
 //	      x        a peer message that is not a vss.Signature
 //
 // Output:      h<h>=<tag,tag,…>;…   what each instance received on its reply channel, in order
+//
+// Case line:   stage <rid0;rid1;…> <ev,ev,…>      (completion of a request: Review A #3, finding F20)
+//
+//	the receiver of every instance is the REAL recovery stage (dosnode recoverSign through the hook
+//	VerifRecoverSign) of a 1-of-1 group, and every arrival a<j> carries a VALID share on a content that
+//	names the arrival: the stage reports on the first share it is handed, returns, and its query context
+//	stays live until c<h> / the end of the schedule (handleQuery cancels only after the chain call).
+//	Every later share for that request must still be TAKEN from the loop (drainSigns since /repo 3a1c0bc);
+//	before, the loop waited in that send and no other request was served: oracle collector-blocked.
+//
+// Output:      h<h>=<tag> | h<h>=-    the arrival each instance's stage reported with
 package c13
 
 import (
@@ -35,7 +42,11 @@ import (
 
 	"github.com/DOSNetwork/core/dosnode"
 	"github.com/DOSNetwork/core/log"
+	"github.com/DOSNetwork/core/share"
 	vss "github.com/DOSNetwork/core/share/vss/pedersen"
+	"github.com/DOSNetwork/core/sign/tbls"
+	"github.com/DOSNetwork/core/suites"
+	"github.com/dedis/kyber"
 
 	"verifharness/internal/doubles"
 	"verifharness/internal/h"
@@ -47,10 +58,12 @@ func init() {
 		ID: "C13",
 		Rule: "cases: every interleaving (exhaustive) of k<=4 (quick) / k<=5 (thorough) share arrivals over <=3 request ids with the registrations, " +
 			"cancellations and re-registrations of those requests, within the stated event budget, plus random longer schedules and schedules with the empty request id (child process); " +
+			"stage lines: every interleaving of k<=3 arrivals over 2 request ids with registrations / cancellations, the receiver being the real recoverSign (reports, returns, must keep draining); " +
 			"non-trivial = the schedule has at least one arrival and one registration; distinct = distinct case line",
-		Gen:        gen,
-		Exec:       exec,
-		Exhaustive: func(string) bool { return true },
+		Gen:  gen,
+		Exec: exec,
+		// the enumerated spaces are complete within their stated bounds; the random long schedules are samples
+		Exhaustive: func(line string) bool { return !strings.HasPrefix(line, "loop 0102;0103;") },
 	})
 }
 
@@ -61,7 +74,7 @@ type ev struct {
 
 func parse(line string) (rids [][]byte, evs []ev) {
 	w := strings.Fields(line)
-	if len(w) != 3 || w[0] != "loop" {
+	if len(w) != 3 || (w[0] != "loop" && w[0] != "stage") {
 		panic("bad case line")
 	}
 	for _, s := range strings.Split(w[1], ";") {
@@ -79,8 +92,6 @@ func parse(line string) (rids [][]byte, evs []ev) {
 			evs = append(evs, ev{kind: 'r', h: h.Atoi(p[0]), j: h.Atoi(p[1])})
 		case 'c':
 			evs = append(evs, ev{kind: 'c', h: h.Atoi(t[1:])})
-		case 'f':
-			evs = append(evs, ev{kind: 'f', h: h.Atoi(t[1:])})
 		case 'x':
 			evs = append(evs, ev{kind: 'x'})
 		default:
@@ -119,9 +130,6 @@ type inst struct {
 var quiet = doubles.NewLogger()
 
 // run drives the real queryLoop through the schedule.
-// windowHits counts how often the loop was seen waiting inside the completion window (evidence only).
-var windowHits int32
-
 // stuckCases counts cases in which the loop stopped consuming inputs.
 var stuckCases int32
 
@@ -148,28 +156,8 @@ func run(rids [][]byte, evs []ev) map[int]*inst {
 		}
 		in.gone = true
 	}
-	var finished []*inst // stage gone, context not yet cancelled
-	// input hands one input to the loop. If the loop does not take it within 50 ms while some instance is
-	// inside its completion window, the loop is waiting in a send to that instance: handleQuery's cancel
-	// comes now, the loop drops the share and goes on.
-	input := func(op func()) {
-		done := make(chan struct{})
-		go func() { op(); close(done) }()
-		if len(finished) == 0 {
-			<-done
-			return
-		}
-		select {
-		case <-done:
-		case <-time.After(50 * time.Millisecond):
-			atomic.AddInt32(&windowHits, 1)
-			for _, in := range finished {
-				in.cancel()
-			}
-			finished = nil
-			<-done
-		}
-	}
+	// input hands one input to the loop and returns when the loop has taken it
+	input := func(op func()) { op() }
 	deliver := func(m proto.Message) { input(func() { pd.Deliver([]byte("peer"), m) }) }
 	for i, e := range evs {
 		switch e.kind {
@@ -214,15 +202,6 @@ func run(rids [][]byte, evs []ev) map[int]*inst {
 				in.cancAt = i
 				in.gotAtCancel = len(in.got)
 			}
-		case 'f':
-			in := get(e.h)
-			deliver(&vss.PublicKey{})
-			stopRecv(in) // recoverSign has returned; the context is still live
-			if in.cancAt < 0 {
-				in.cancAt = i
-				in.gotAtCancel = len(in.got)
-				finished = append(finished, in)
-			}
 		}
 	}
 	// sentinel: once the loop takes it, every scripted event has been processed completely
@@ -234,6 +213,211 @@ func run(rids [][]byte, evs []ev) map[int]*inst {
 	node.VerifCancel()
 	<-loopDone
 	return insts
+}
+
+// ---------------------------------------------------------------- stage lines: the real recoverSign as receiver
+
+var (
+	suite    = suites.MustFind("bn256")
+	keyOnce  sync.Once
+	keyPub   *share.PubPoly
+	keyShare *share.PriShare
+)
+
+// a 1-of-1 group: one coefficient, one share; threshold 1
+func oneOfOne() (*share.PubPoly, *share.PriShare) {
+	keyOnce.Do(func() {
+		sc := suite.G2().Scalar().SetInt64(0x5eed13)
+		pri := share.CoefficientsToPriPoly(suite.G2(), []kyber.Scalar{sc})
+		keyPub = pri.Commit(suite.G2().Point().Base())
+		keyShare = pri.Shares(1)[0]
+	})
+	return keyPub, keyShare
+}
+
+// stageContent: 2 bytes naming the arrival, then 20 address bytes (recoverSign strips addrLen)
+func stageContent(tag int) []byte {
+	c := []byte{byte(tag >> 8), byte(tag)}
+	return append(c, bytes.Repeat([]byte{0xad}, 20)...)
+}
+
+func runStage(rids [][]byte, evs []ev) map[int]*inst {
+	pub, sh := oneOfOne()
+	id := []byte("verif-c13-node-00002")
+	pd := doubles.NewP2P(id, 0)
+	node := dosnode.VerifNewNode(id, pd, nil, nil, 0, quiet)
+	loopDone := make(chan struct{})
+	go func() { node.VerifQueryLoop(); close(loopDone) }()
+	insts := map[int]*inst{}
+	lgs := map[int]*doubles.Logger{}
+	outClosed := map[int]chan struct{}{}
+	reported := map[int]chan struct{}{}
+	get := func(k int) *inst {
+		if in, ok := insts[k]; ok {
+			return in
+		}
+		in := &inst{reply: make(chan *vss.Signature), rids: map[int]bool{}, cancAt: -1}
+		in.ctx, in.cancel = context.WithCancel(context.Background())
+		insts[k] = in
+		return in
+	}
+	deliver := func(m proto.Message) { pd.Deliver([]byte("peer"), m) }
+	// settle: every share the loop handed to the stage of `in` so far has been processed. The loop is idle
+	// (it took the sync message), so the stage has RECEIVED them; recoverSign logs its Event right after the
+	// receive and then runs to its report without waiting for anything but the harness' reader.
+	settle := func(k int, in *inst) {
+		lg := lgs[k]
+		if lg == nil {
+			return
+		}
+		lg.WaitCount("recoverSign", 1, nil, 20*time.Millisecond)
+		if lg.Count("recoverSign") >= 1 {
+			select {
+			case <-reported[k]:
+			case <-outClosed[k]:
+			case <-time.After(5 * time.Second):
+			}
+		}
+	}
+	for i, e := range evs {
+		switch e.kind {
+		case 'a':
+			c := stageContent(i)
+			sg, err := tbls.Sign(suite, sh, c)
+			if err != nil {
+				panic(err)
+			}
+			deliver(&vss.Signature{Index: 0, RequestId: rids[e.j], Nonce: []byte(strconv.Itoa(i)), Content: c, Signature: sg})
+		case 'x':
+			deliver(&vss.PublicKey{})
+		case 'r':
+			in := get(e.h)
+			in.rids[e.j] = true
+			if in.regs == 0 {
+				in.regAt = i
+				// the recovery stage of this pipeline: the REAL recoverSign reading the channel that is registered
+				k := e.h
+				lgs[k] = doubles.NewLogger()
+				out, errc := dosnode.VerifRecoverSign(in.ctx, in.reply, suite, pub, 1, 1, lgs[k])
+				outClosed[k] = make(chan struct{})
+				reported[k] = make(chan struct{})
+				go func() {
+					for range errc {
+					}
+				}()
+				go func() {
+					first := true
+					for s := range out { // reportQueryResult reads one value; the channel is closed when the stage returns
+						in.mu.Lock()
+						tag := -1
+						if len(s.Content) == 2 {
+							tag = int(s.Content[0])<<8 | int(s.Content[1])
+						}
+						in.got = append(in.got, got{tag: tag, rid: s.RequestId})
+						in.mu.Unlock()
+						if first {
+							close(reported[k])
+							first = false
+						}
+					}
+					close(outClosed[k])
+				}()
+			}
+			in.regs++
+			node.VerifRegisterChan(in.ctx, string(rids[e.j]), 1, in.reply)
+		case 'c':
+			in := get(e.h)
+			deliver(&vss.PublicKey{}) // sync: the loop has finished the previous event
+			settle(e.h, in)
+			in.cancel() // handleQuery returned
+			if oc := outClosed[e.h]; oc != nil {
+				<-oc
+			}
+			if in.cancAt < 0 {
+				in.cancAt = i
+				in.mu.Lock()
+				in.gotAtCancel = len(in.got)
+				in.mu.Unlock()
+			}
+		}
+	}
+	deliver(&vss.PublicKey{}) // sentinel
+	for k, in := range insts {
+		settle(k, in)
+	}
+	for k, in := range insts {
+		in.cancel()
+		if oc := outClosed[k]; oc != nil {
+			<-oc
+		}
+	}
+	node.VerifCancel()
+	<-loopDone
+	return insts
+}
+
+func renderStage(insts map[int]*inst) string { return render(insts) }
+
+// oracleStage: the property read off the schedule, no model: one report at most per pipeline; it names a
+// share that arrived for a request id the pipeline registered under; a pipeline registered once on an id
+// nobody else registers, not cancelled, reports with the FIRST share that arrived for that id (before or
+// after the registration). That the loop keeps consuming its inputs is checked by the caller (5 s).
+func oracleStage(rids [][]byte, evs []ev, insts map[int]*inst) string {
+	regsOfRid := map[string]int{}
+	for _, e := range evs {
+		if e.kind == 'r' {
+			regsOfRid[string(rids[e.j])]++
+		}
+	}
+	var ks []int
+	for k := range insts {
+		ks = append(ks, k)
+	}
+	sort.Ints(ks)
+	for _, k := range ks {
+		in := insts[k]
+		if len(in.got) > 1 {
+			return fmt.Sprintf("second-report: the stage of instance %d emitted %d values", k, len(in.got))
+		}
+		for _, g := range in.got {
+			if g.tag < 0 || g.tag >= len(evs) || evs[g.tag].kind != 'a' {
+				return fmt.Sprintf("invented: instance %d reported with tag %d which is not an arrival", k, g.tag)
+			}
+			ok := false
+			for j := range in.rids {
+				if bytes.Equal(rids[j], rids[evs[g.tag].j]) && bytes.Equal(g.rid, rids[j]) {
+					ok = true
+				}
+			}
+			if !ok {
+				return fmt.Sprintf("crossover: instance %d reported with a share for request id %s", k, h.Hex(rids[evs[g.tag].j]))
+			}
+		}
+		if in.regs == 1 && in.cancAt < 0 {
+			var j int
+			for jj := range in.rids {
+				j = jj
+			}
+			if regsOfRid[string(rids[j])] == 1 {
+				first := -1
+				for i, e := range evs {
+					if e.kind == 'a' && bytes.Equal(rids[e.j], rids[j]) {
+						first = i
+						break
+					}
+				}
+				switch {
+				case first >= 0 && len(in.got) == 0:
+					return fmt.Sprintf("lost-or-extra: instance %d (request %d) never reported although share %d arrived for it", k, j, first)
+				case first >= 0 && in.got[0].tag != first:
+					return fmt.Sprintf("lost-or-extra: instance %d (request %d) reported with arrival %d, the first one was %d", k, j, in.got[0].tag, first)
+				case first < 0 && len(in.got) > 0:
+					return fmt.Sprintf("invented: instance %d reported although no share arrived for its request", k)
+				}
+			}
+		}
+	}
+	return ""
 }
 
 func render(insts map[int]*inst) string {
@@ -395,7 +579,7 @@ func classify(evs []ev) (string, bool) {
 			na++
 		case 'r':
 			nr++
-		case 'c', 'f':
+		case 'c':
 			nc++
 		}
 	}
@@ -437,27 +621,29 @@ func exec(line string) (res h.Result) {
 		return
 	}
 	ch := make(chan map[int]*inst, 1)
-	before := atomic.LoadInt32(&windowHits)
-	go func() { ch <- run(rids, evs) }()
+	stage := strings.HasPrefix(line, "stage ")
+	go func() {
+		if stage {
+			ch <- runStage(rids, evs)
+		} else {
+			ch <- run(rids, evs)
+		}
+	}()
 	select {
 	case insts := <-ch:
-		res.Impl = render(insts)
-		res.Oracle = oracle(rids, evs, insts)
-		for _, e := range evs {
-			if e.kind == 'f' {
-				if atomic.LoadInt32(&windowHits) != before {
-					res.Class = "completion-window: loop seen waiting until the cancel; " + res.Class
-				} else {
-					res.Class = "completion-window: not hit; " + res.Class
-				}
-				break
-			}
+		if stage {
+			res.Class = "stage " + res.Class
+			res.Impl = renderStage(insts)
+			res.Oracle = oracleStage(rids, evs, insts)
+		} else {
+			res.Impl = render(insts)
+			res.Oracle = oracle(rids, evs, insts)
 		}
 	case <-time.After(5 * time.Second):
 		// the loop did not take an input within 5 s: it is stuck in a send nobody will receive
 		res.Impl = "stuck"
 		atomic.AddInt32(&stuckCases, 1)
-		res.Oracle = "collector-blocked: the loop stopped consuming its inputs (a send to a cancelled or unregistered request blocks it); every other request is starved"
+		res.Oracle = "collector-blocked: the loop stopped consuming its inputs (it waits in a send to a request whose receiver is gone: cancelled, unregistered, or completed with its context still live); every other request is starved"
 	}
 	return
 }
@@ -537,16 +723,23 @@ func gen(tier string, rng *h.Rng, emit func(string)) {
 			{0, 3, all6, 6}, {1, 3, all6, 7}, {2, 3, all6, 6},
 		}
 	}
-	// the completion window: stage gone (f) before the context is cancelled (c)
-	if thorough {
-		spaces = append(spaces, space{3, 2, []string{"r0.0", "f0", "c0", "r1.1"}, 7})
-	} else {
-		spaces = append(spaces, space{2, 2, []string{"r0.0", "f0", "r1.1"}, 5})
-	}
 	n := 0
 	for _, sp := range spaces {
 		enumerate(sp.k, sp.nr, sp.controls, sp.maxLen, func(evs []string) {
 			emit("loop " + ridSets[n%len(ridSets)] + " " + evString(evs))
+			n++
+		})
+	}
+	// 1b. completion (finding F20): the real recoverSign as receiver of every instance. Exhaustive within the bounds.
+	var sspaces []space
+	if thorough {
+		sspaces = []space{{4, 2, []string{"r0.0", "c0", "r1.1"}, 7}, {3, 2, []string{"r0.0", "c0", "r1.1", "c1", "x"}, 7}, {3, 2, []string{"r0.0", "r3.0", "r1.1"}, 6}}
+	} else {
+		sspaces = []space{{3, 2, []string{"r0.0", "c0", "r1.1"}, 6}, {2, 2, []string{"r0.0", "r3.0", "r1.1"}, 5}}
+	}
+	for _, sp := range sspaces {
+		enumerate(sp.k, sp.nr, sp.controls, sp.maxLen, func(evs []string) {
+			emit("stage " + ridSets[n%len(ridSets)] + " " + evString(evs))
 			n++
 		})
 	}
